@@ -45,6 +45,10 @@ pub struct Allocator {
 
   /// The total number of garbage collections that have occurred
   gc_count: u128,
+
+  /// Did the last collection sweep both generations
+  #[cfg(feature = "verif")]
+  verif_last_full: bool,
 }
 
 const GC_HEAP_GROW_FACTOR: usize = 2;
@@ -70,6 +74,8 @@ impl Allocator {
       intern_cache: HashMap::new(),
       next_gc: 1024 * 1024,
       gc_count: 0,
+      #[cfg(feature = "verif")]
+      verif_last_full: false,
     }
   }
 
@@ -139,10 +145,14 @@ impl Allocator {
   {
     let string = src.as_ref();
     if let Some(cached) = self.intern_cache.get(string) {
+      #[cfg(feature = "verif")]
+      crate::verif::note_intern(true, cached.verif_addr(), string);
       return *cached;
     }
 
     let managed = self.allocate_obj(string, context);
+    #[cfg(feature = "verif")]
+    crate::verif::note_intern(false, managed.verif_addr(), string);
     let static_str: &'static str = unsafe { &*(&*managed as *const str) };
     self.intern_cache.insert(static_str, managed);
     managed
@@ -196,6 +206,8 @@ impl Allocator {
 
     // push onto heap
     self.bytes_allocated += result.size;
+    #[cfg(feature = "verif")]
+    crate::verif::note_alloc(handle.loc() as usize, result.size, "box", "boxed");
     self.heap.push(handle);
 
     #[cfg(feature = "gc_log_alloc")]
@@ -231,6 +243,13 @@ impl Allocator {
 
     // push onto heap
     self.bytes_allocated += result.size;
+    #[cfg(feature = "verif")]
+    crate::verif::note_alloc(
+      result.handle.verif_addr(),
+      result.size,
+      "obj",
+      &format!("{:?}", result.handle.kind()),
+    );
     self.nursery_obj_heap.push(result.handle);
 
     #[cfg(feature = "gc_log_alloc")]
@@ -296,7 +315,19 @@ impl Allocator {
       let heap_size = self.sweep_heap();
 
       self.bytes_allocated = heap_size + obj_heap_size;
-      self.next_gc = self.bytes_allocated * GC_HEAP_GROW_FACTOR
+      self.next_gc = self.bytes_allocated * GC_HEAP_GROW_FACTOR;
+
+      #[cfg(feature = "verif")]
+      crate::verif::note_gc(
+        self.gc_count,
+        self.nursery_obj_heap.is_empty() && self.verif_last_full,
+        self.bytes_allocated,
+        self.next_gc,
+        self.obj_heap.len(),
+        self.heap.len(),
+        self.intern_cache.len(),
+        self.temp_roots.len(),
+      );
     }
 
     #[cfg(any(
@@ -382,6 +413,10 @@ impl Allocator {
   #[cfg(not(feature = "gc_stress"))]
   fn sweep_obj_nursery(&mut self) -> usize {
     let mut remaining: usize = 0;
+    #[cfg(feature = "verif")]
+    {
+      self.verif_last_full = false;
+    }
 
     self.obj_heap.iter().for_each(|obj| {
       (*obj).unmark();
@@ -393,6 +428,10 @@ impl Allocator {
       .extend(self.nursery_obj_heap.drain(..).filter(|obj| {
         let retain = (*obj).unmark();
 
+        #[cfg(feature = "verif")]
+        if !retain {
+          crate::verif::note_free(obj.verif_addr());
+        }
 
         if retain {
           #[cfg(feature = "gc_log_retain")]
@@ -416,9 +455,17 @@ impl Allocator {
   /// to the normal heap
   fn sweep_obj_full(&mut self) -> usize {
     let mut remaining: usize = 0;
+    #[cfg(feature = "verif")]
+    {
+      self.verif_last_full = true;
+    }
 
     self.obj_heap.retain(|obj| {
       let retain = (*obj).unmark();
+      #[cfg(feature = "verif")]
+      if !retain {
+        crate::verif::note_free(obj.verif_addr());
+      }
 
       if retain {
         #[cfg(feature = "gc_log_retain")]
@@ -439,6 +486,10 @@ impl Allocator {
       .obj_heap
       .extend(self.nursery_obj_heap.drain(..).filter(|obj| {
         let retain = (*obj).unmark();
+        #[cfg(feature = "verif")]
+        if !retain {
+          crate::verif::note_free(obj.verif_addr());
+        }
 
         if retain {
           #[cfg(feature = "gc_log_retain")]
@@ -465,6 +516,10 @@ impl Allocator {
 
     self.heap.retain(|item| {
       let retain = item.unmark();
+      #[cfg(feature = "verif")]
+      if !retain {
+        crate::verif::note_free(item.loc() as usize);
+      }
 
       if retain {
         #[cfg(feature = "gc_log_retain")]
@@ -487,6 +542,12 @@ impl Allocator {
   /// Remove strings from the cache that no longer have any references
   /// in the heap
   fn sweep_intern_cache(&mut self) {
+    #[cfg(feature = "verif")]
+    for string in self.intern_cache.values() {
+      if !string.marked() {
+        crate::verif::note_evict(string.verif_addr());
+      }
+    }
     self.intern_cache.retain(|_, &mut string| string.marked());
   }
 
